@@ -117,3 +117,53 @@ def finish(prop, tier, seed, level, gate, cov, timer, violations, known, assumpt
     print('check %s: %s  (tier %s, %.1fs, obligations %d/%d)' % (
         prop, 'OK' if rc == 0 else 'FAILED', tier, timer.s(), gate['discharged'], gate['obligations']))
     return rc
+
+
+def replay(prop, path):
+    """bin/check <Cxx> --replay <file>: re-runs the recorded input on the current /repo and prints what the library does
+    next to what the replay file recorded.  Exit 1 when the run shows a panic / deadlock / hang / error marker or the
+    file records a broken proof obligation; exit 0 otherwise (compare the printed observation with the 'what' field:
+    the per-property oracles are applied by the normal check run, not here)."""
+    import shutil
+    txt = open(path).read()
+    try:
+        j = json.loads(txt)
+    except ValueError:
+        print(txt[:4000])
+        print('replay %s: this file records a proof obligation / correspondence that no longer checks; run `bin/check %s` to re-check it' % (prop, prop))
+        return 1
+    print('recorded: %s' % (str(j.get('what') or j.get('finding') or '')[:600]))
+    text = j.get('case_text') or j.get('script')
+    rc, out = qv.harness_build()
+    if rc != 0:
+        print(out[-2000:])
+        return 2
+    d = qv.workdir('replay')
+    bad = False
+    if isinstance(text, str) and text.startswith(('case ', 'breq ', 'bhist ')):
+        fpath = os.path.join(d, 'case.txt')
+        open(fpath, 'w').write(text)
+        args = ['backend', fpath, d] if text.startswith('b') else [fpath, d]
+        try:
+            rc, out, err = qv.run_harness(args, timeout=600)
+        except Exception as e:
+            rc, out, err = 3, '', str(e)
+        for ln in out.split('\n')[:400]:
+            print('  ' + ln[:300])
+        bad = rc != 0 or any(k in out for k in (' panic', 'deadlock', 'hang ', 'budget'))
+    elif 'script(limit op:key ...)' in j:
+        fpath = os.path.join(d, 's.txt')
+        open(fpath, 'w').write(j['script(limit op:key ...)'] + '\n')
+        rc, out, err = qv.run_harness(['cache', fpath], timeout=60)
+        print(out[:3000])
+    elif 'lines' in j or 'query' in j:
+        q = j.get('lines') or [j.get('query')]
+        fpath = os.path.join(d, 'q.txt')
+        open(fpath, 'w').write('\n'.join(q) + '\n')
+        rc, out, err = qv.run_harness(['codec', fpath], timeout=60)
+        print(out[:3000])
+    else:
+        print(json.dumps(j, indent=1)[:3000])
+    shutil.rmtree(d, ignore_errors=True)
+    print('replay %s: %s' % (prop, 'the library still misbehaves on this input (panic / deadlock / hang)' if bad else 'done; compare with the recorded finding'))
+    return 1 if bad else 0
